@@ -199,10 +199,23 @@ def main(argv):
     solve.discharge_all(obligs, P.axioms, tier)
     t_solve = time.time() - t1
     if tier == "thorough":
-        for o in obligs:
-            if o.result == "discharged" and o.backend == "z3":
-                r, dt, info = solve.second_opinion(o, P.axioms, 30)
+        # independent second opinion (cvc5 CLI) on everything z3 discharged; informational (recorded per obligation), 16 at a time
+        from concurrent.futures import ThreadPoolExecutor
+        todo = [o for o in obligs if o.result == "discharged" and (o.backend or "").startswith("z3")]
+        texts = [solve.smt2_of(P.axioms, o.assumptions, o.goal) for o in todo]
+        with ThreadPoolExecutor(max_workers=16) as tp:
+            for o, (r, dt, info) in zip(todo, tp.map(lambda t: solve.check_cvc5(t, 20), texts)):
                 o.cvc5 = r
+    # ---- encoding cross-check: the executor as an interpreter vs CPython on the same real source (checker fault on disagreement)
+    xcheck = None
+    if pid in ("C05", "C06", "C11") and (tier == "thorough" or pid == "C11"):
+        try:
+            from . import crosscheck
+            xcheck = crosscheck.run(seed, 25 if tier == "quick" else 150)
+            if xcheck["disagreements"]:
+                faults.append(f"executor and CPython disagree on a concrete run: {json.dumps(xcheck['first_disagreement'], default=str)[:600]}")
+        except Exception as e:
+            xcheck = {"error": f"{type(e).__name__}: {e}"}
     # ---- vacuity guards (DESIGN 3.2)
     # (a) the contract's concrete witness provably satisfies the precondition (axioms ∧ witness ⊢ requires),
     #     so the precondition is not contradictory; (b) no path's assumptions are refutable (⊢ False) within budget.
@@ -423,6 +436,7 @@ def main(argv):
             "solver_time_s": round(sum(o.seconds for o in obligs), 3),
             "vacuity": vac, "canaries": canaries,
             "bounded_standins": bounded,
+            "encoding_crosscheck": xcheck,
             "uncovered_clauses": P.uncovered,
             "undecided": undecided,
             "known_findings": [{"obligation": (o.name if o else "native"), "what": hit["what"]} for hit, o in known_hits],
